@@ -172,7 +172,7 @@ Proof. exact owner_lookup_vs_scan. Qed.
 Theorem C08_tree_product_either_order_partial :
   forall (d p : str) (c : creator) (cl : claim) trees0,
     c_role cl <> RStatic ->
-    let st_tree := mkState [] [] ((d, c) :: trees0) [] [] in
+    let st_tree := mkState [] [] ((d, c) :: trees0) [] [] [] in
     (forall t, In t (map fst trees0) -> is_prefix t p = false) ->
     (is_prefix d p = true -> find_owner false st_tree p = Ok (Some (d, c))) /\
     (is_prefix d p = false -> find_owner false st_tree p = Ok None) /\
@@ -315,12 +315,19 @@ Proof. exact define_static_commute. Qed.
 
 Theorem C08_define_define_commute :
   forall gm gr st cA lA rA pA cB lB rB pB,
-    Inv gm gr st -> product_role rA = true -> product_role rB = true ->
+    Inv gm gr st -> steps_closed (steps st) -> product_role rA = true -> product_role rB = true ->
     accepted (step gm false gr st (define1 cA lA rA pA)) = true ->
     accepted (step gm false gr st (define1 cB lB rB pB)) = true ->
     both_equiv (run gm false gr st [define1 cA lA rA pA; define1 cB lB rB pB])
                (run gm false gr st [define1 cB lB rB pB; define1 cA lA rA pA]).
 Proof. exact define_define_commute. Qed.
+
+(* The extra hypothesis of C08_define_define_commute (every step's creator is StepUp itself or an
+   existing step; needed since define_step walks the creator chain) holds in every reachable
+   state. *)
+Theorem C08_reachable_steps_closed :
+  forall gm ow gr st, reachable gm ow gr st -> steps_closed (steps st).
+Proof. exact reachable_steps_closed. Qed.
 
 Example C08_define_example :
   let st := run_skip w_gm false false empty_state
@@ -410,6 +417,33 @@ Theorem C08_collision_text_symmetric :
     decl_of_node r1 c1 = Ok d1 -> decl_of_node r2 c2 = Ok d2 ->
     render (claim_collision p (mkClaim r1 c1) d2) = render (claim_collision p (mkClaim r2 c2) d1).
 Proof. exact collision_text_symmetric. Qed.
+
+(* _volatile_input_message (fix 612b78c): a path that step a declares volatile and step b uses as
+   an input (no earlier consumer, no owning tree).  Volatile first, _resolve_supply_file raises;
+   input first, _declare_file raises, naming the first consumer in label order; both raise the
+   SAME structured message (path, producer, consumer) and hence the same text. *)
+Theorem C08_volatile_input_either_order :
+  forall ow st a b p st_a st_b,
+    filter (fun e => str_eqb (fst e) p) (sinks st) = [] ->
+    mem_str p (loose st) = false ->
+    find_owner ow st p = Ok None ->
+    declare_file ow (CStep a) RVolatile st p = Ok st_a ->
+    supply ow b st p = Ok st_b ->
+    supply ow b st_a p = Err (MVolInput p (phrase_step a) (phrase_step b)) /\
+    declare_file ow (CStep a) RVolatile st_b p = Err (MVolInput p (phrase_step a) (phrase_step b)).
+Proof. exact volatile_input_either_order. Qed.
+
+Example C08_volatile_input_example :
+  let st := run_skip w_gm false false empty_state
+              [RqDefine CRoot w_plan [] [] []; RqDefine (CStep w_plan) w_A [] [] [];
+               RqDefine (CStep w_plan) w_B [] [] []] in
+  run w_gm false false st [RqAmend w_A [] [] [w_atxt]; RqAmend w_B [w_atxt] [] []]
+    = Err (MVolInput w_atxt (phrase_step w_A) (phrase_step w_B)) /\
+  run w_gm false false st [RqAmend w_B [w_atxt] [] []; RqAmend w_A [] [] [w_atxt]]
+    = Err (MVolInput w_atxt (phrase_step w_A) (phrase_step w_B)) /\
+  render (MVolInput w_atxt (phrase_step w_A) (phrase_step w_B))
+    = s2l "File (a.txt) cannot be both declared volatile by step (A) and used as an input by step (B). A volatile output cannot be an input: drop one of the two.".
+Proof. vm_compute. repeat split; reflexivity. Qed.
 
 Theorem C08_dup_messages_symmetric :
   forall t a b,
